@@ -296,10 +296,17 @@ func encAPP(v *APP, o *EncOpts) (Encoded, error) {
 	w.bytes(v.Name)
 	w.bytes(v.Data)
 	for i := 0; i < pad; i++ {
-		if i == pad-1 {
+		switch {
+		case i == pad-1:
 			w.u8(uint8(pad))
-		} else {
-			w.open(o.padFill())
+		case o != nil && o.PadFill != nil:
+			// an RFC-valid input variant for the decode-side checks: a receiver ignores these octets
+			w.open(o.PadFill())
+		case o != nil && o.D.APPPadFillCount:
+			w.u8(uint8(pad))
+		default:
+			// what a sender emits: "reserved and padding bits zero" (C03)
+			w.u8(0)
 		}
 	}
 	return w.finish()
